@@ -4,8 +4,10 @@
 //!
 //! Inputs (complete, never sampled): every chain complex  C_{L-1} -> ... -> C_1 -> C_0  with
 //! L in 1..=3 modules of rank 0..=2 and entries in {0,1,-1,2} (Z[H]: {0,1,H,-1}), kept iff all
-//! consecutive products vanish in the reference ring; thorough adds L = 4 (ranks <= 2, alphabet
-//! {0,1,-1}) and L <= 4, ranks <= 3 over the two-letter alphabet {0,1}.  Rings: Z (i64),
+//! consecutive products vanish in the reference ring; quick also runs L = 4, ranks <= 2 over
+//! {0,1}; thorough adds L = 4 (ranks <= 2, alphabet {0,1,-1}, Z[H]: {0,1,H}), L <= 3 with
+//! ranks <= 3 over the two-letter alphabet {0,1}, and for Z[H] L <= 2, ranks <= 3 over {0,1,H}.
+//! (L = 4 together with rank 3 is not run: 6*10^5 .. 10^6 complexes per ring.)  Rings: Z (i64),
 //! Q (Ratio<i64>), F2, F3, Z[H] (Poly<'H', i64>).  Plus the repository's own d3, s2, t2, rp2.
 //!
 //! Exploration: explicit-state BFS (`vcore::bfs`).  A state is the full observable content of a
@@ -434,17 +436,49 @@ where
 {
     mats: Vec<SpMat<T>>,
     trans: Vec<Trans<T>>,
+    /// forward_mat() / backward_mat() of `trans`, as computed by the library
+    fwd: Vec<SpMat<T>>,
+    bwd: Vec<SpMat<T>>,
     vecs: Vec<Vec<SpVec<T>>>,
+}
+
+/// true iff every observable of the reducer equals the payload it was instantiated from
+/// (library-level equality of all matrices, transfer matrices and tracked vectors)
+fn unchanged<T: Sc>(r: &ChainReducer<isize, T>, p: &Payload<T>, l: usize) -> bool
+where
+    for<'x> &'x T: RingOps<T>,
+{
+    for g in -1..l as isize {
+        let i = (g + 1) as usize;
+        if r.matrix(g) != Some(&p.mats[i]) {
+            return false;
+        }
+        let Some(t) = r.trans(g) else { return false };
+        if t.src_dim() != p.trans[i].src_dim() || t.tgt_dim() != p.trans[i].tgt_dim() || t.forward_mat() != p.fwd[i] || t.backward_mat() != p.bwd[i] {
+            return false;
+        }
+        let same_vecs = match r.vecs(g) {
+            Some(v) => *v == p.vecs[i],
+            None => p.vecs[i].is_empty(),
+        };
+        if !same_vecs {
+            return false;
+        }
+    }
+    true
 }
 
 fn snapshot<T: Sc>(r: &ChainReducer<isize, T>, l: usize) -> Result<Payload<T>, String>
 where
     for<'x> &'x T: RingOps<T>,
 {
-    let mut p = Payload { mats: vec![], trans: vec![], vecs: vec![] };
+    let mut p = Payload { mats: vec![], trans: vec![], fwd: vec![], bwd: vec![], vecs: vec![] };
     for g in -1..l as isize {
         p.mats.push(r.matrix(g).ok_or(format!("matrix({g}) is gone"))?.clone());
-        p.trans.push(r.trans(g).ok_or(format!("trans({g}) is gone"))?.clone());
+        let t = r.trans(g).ok_or(format!("trans({g}) is gone"))?;
+        p.fwd.push(t.forward_mat());
+        p.bwd.push(t.backward_mat());
+        p.trans.push(t.clone());
         p.vecs.push(r.vecs(g).cloned().unwrap_or_default());
         if r.rank(g) != Some(p.mats.last().unwrap().ncols()) {
             return Err(format!("rank({g}) = {:?} but matrix({g}) has {} columns", r.rank(g), p.mats.last().unwrap().ncols()));
@@ -481,12 +515,12 @@ where
     for k in 0..l {
         o.d.push(from_sp(&p.mats[k + 1]));
         let t = &p.trans[k + 1];
-        let (fm, bm) = (t.forward_mat(), t.backward_mat());
+        let (fm, bm) = (&p.fwd[k + 1], &p.bwd[k + 1]);
         if fm.shape() != (t.tgt_dim(), t.src_dim()) || bm.shape() != (t.src_dim(), t.tgt_dim()) {
             return Err(format!("trans({k}): forward_mat {:?} / backward_mat {:?} do not match dims {} -> {}", fm.shape(), bm.shape(), t.src_dim(), t.tgt_dim()));
         }
-        o.f.as_mut().unwrap().push(from_sp(&fm));
-        o.b.as_mut().unwrap().push(from_sp(&bm));
+        o.f.as_mut().unwrap().push(from_sp(fm));
+        o.b.as_mut().unwrap().push(from_sp(bm));
         o.vecs.as_mut().unwrap().push(p.vecs[k + 1].iter().map(|v| vec_from_sp(v)).collect());
     }
     Ok(o)
@@ -511,9 +545,17 @@ where
     for<'x> &'x T: RingOps<T>,
 {
     cid: u32,
+    /// hash of `obs`, computed once (in parallel) when the node is created
+    h: u64,
     obs: Obs<T::Ref>,
     payload: Payload<T>,
     hist: Vec<u8>,
+}
+
+fn obs_hash<F: RefEuclid>(o: &Obs<F>) -> u64 {
+    let mut h = std::collections::hash_map::DefaultHasher::new();
+    o.hash(&mut h);
+    h.finish()
 }
 
 impl<T: Sc> Clone for Node<T>
@@ -521,7 +563,7 @@ where
     for<'x> &'x T: RingOps<T>,
 {
     fn clone(&self) -> Self {
-        Node { cid: self.cid, obs: self.obs.clone(), payload: self.payload.clone(), hist: self.hist.clone() }
+        Node { cid: self.cid, h: self.h, obs: self.obs.clone(), payload: self.payload.clone(), hist: self.hist.clone() }
     }
 }
 impl<T: Sc> PartialEq for Node<T>
@@ -529,7 +571,7 @@ where
     for<'x> &'x T: RingOps<T>,
 {
     fn eq(&self, o: &Self) -> bool {
-        self.cid == o.cid && self.obs == o.obs
+        self.cid == o.cid && self.h == o.h && self.obs == o.obs
     }
 }
 impl<T: Sc> Eq for Node<T> where for<'x> &'x T: RingOps<T> {}
@@ -539,14 +581,14 @@ where
 {
     fn hash<H: Hasher>(&self, h: &mut H) {
         self.cid.hash(h);
-        self.obs.hash(h);
+        self.h.hash(h);
     }
 }
 
 struct Counters {
     complexes: AtomicU64,
     nontrivial: AtomicU64,
-    evaluations: AtomicU64,
+    distinct_edges: AtomicU64,
     effective_transitions: AtomicU64,
     replays: AtomicU64,
     replays_same_state: AtomicU64,
@@ -559,7 +601,7 @@ struct Counters {
 static CT: Counters = Counters {
     complexes: AtomicU64::new(0),
     nontrivial: AtomicU64::new(0),
-    evaluations: AtomicU64::new(0),
+    distinct_edges: AtomicU64::new(0),
     effective_transitions: AtomicU64::new(0),
     replays: AtomicU64::new(0),
     replays_same_state: AtomicU64::new(0),
@@ -715,6 +757,7 @@ fn explore<T: Sc>(run: &Run, cxs: &[Cx<T>], max_depth: usize, label: &str) -> Va
 where
     for<'x> &'x T: RingOps<T>,
 {
+    let transitions_before = CT.transitions.load(Ordering::Relaxed);
     // initial states + one-shot entry points
     let init: std::sync::Mutex<Vec<Node<T>>> = std::sync::Mutex::new(vec![]);
     run.par_for(cxs.len(), |ci| {
@@ -742,7 +785,7 @@ where
                 if let Err(e) = check_state(cx, &obs) {
                     fail(run, cx, "from(c,true)", e);
                 }
-                init.lock().unwrap().push(Node { cid: ci as u32, obs, payload, hist: vec![] });
+                init.lock().unwrap().push(Node { cid: ci as u32, h: obs_hash(&obs), obs, payload, hist: vec![] });
             }
             Ok(Err(e)) => fail(run, cx, "from(c,true)", e),
             Err(p) => fail(run, cx, "from(c,true)", format!("panicked: {p}")),
@@ -750,32 +793,49 @@ where
     });
     let mut init = init.into_inner().unwrap();
     init.sort_by_key(|n| n.cid);
+    // Successors: every action is executed on the real implementation.  Actions that leave every
+    // observable unchanged (library-level equality) lead back to the same state; the reducer is
+    // then kept for the next action, otherwise it is re-instantiated from the node.  Only distinct
+    // new states are handed to the BFS engine (which therefore counts distinct edges; all
+    // executions are counted in `transitions`).
     let (st, seen) = bfs(run, init, max_depth, u64::MAX, |node: &Node<T>, _depth| {
         let cx = &cxs[node.cid as usize];
         let l = cx.len();
         let acts = actions(l);
-        let mut out = Vec::with_capacity(acts.len());
+        let mut out: Vec<Node<T>> = vec![];
+        let mut reducer: Option<ChainReducer<isize, T>> = None;
         for (ai, a) in acts.iter().enumerate() {
-            CT.evaluations.fetch_add(1, Ordering::Relaxed);
+            CT.transitions.fetch_add(1, Ordering::Relaxed);
             let mut hist = node.hist.clone();
             hist.push(ai as u8);
-            let r = catch(|| -> Result<(Payload<T>, Obs<T::Ref>), String> {
-                let mut r = instantiate(&node.payload, l);
+            let mut r = match reducer.take() {
+                Some(r) => r,
+                None => instantiate(&node.payload, l),
+            };
+            let res = catch(|| -> Result<Option<(Payload<T>, Obs<T::Ref>)>, String> {
                 apply(&mut r, *a);
+                if unchanged(&r, &node.payload, l) {
+                    return Ok(None);
+                }
                 let p = snapshot(&r, l)?;
                 let o = observe_payload(&p, l)?;
-                Ok((p, o))
+                Ok(Some((p, o)))
             });
-            match r {
-                Ok(Ok((payload, obs))) => {
-                    if obs != node.obs {
-                        CT.effective_transitions.fetch_add(1, Ordering::Relaxed);
-                        if let Err(e) = check_state(cx, &obs) {
-                            fail(run, cx, &show_hist(l, &hist), e);
-                            continue; // do not explore beyond a broken state
-                        }
+            match res {
+                Ok(Ok(None)) => reducer = Some(r),
+                Ok(Ok(Some((payload, obs)))) => {
+                    if obs == node.obs {
+                        continue; // same content in a different sparse representation
                     }
-                    out.push(Node { cid: node.cid, obs, payload, hist });
+                    CT.effective_transitions.fetch_add(1, Ordering::Relaxed);
+                    if out.iter().any(|n| n.obs == obs) {
+                        continue; // already judged as successor of this node
+                    }
+                    if let Err(e) = check_state(cx, &obs) {
+                        fail(run, cx, &show_hist(l, &hist), e);
+                        continue; // do not explore beyond a broken state
+                    }
+                    out.push(Node { cid: node.cid, h: obs_hash(&obs), obs, payload, hist });
                 }
                 Ok(Err(e)) => fail(run, cx, &show_hist(l, &hist), e),
                 Err(p) => fail(run, cx, &show_hist(l, &hist), format!("panicked: {p}")),
@@ -813,7 +873,7 @@ where
         }
     });
     CT.states.fetch_add(st.states, Ordering::Relaxed);
-    CT.transitions.fetch_add(st.transitions, Ordering::Relaxed);
+    CT.distinct_edges.fetch_add(st.transitions, Ordering::Relaxed);
     CT.max_depth.fetch_max(st.max_depth as u64, Ordering::Relaxed);
     // one fully written-out trace: the deepest state of the batch with a non-identity transform
     if let Some(n) = seen.iter().filter(|n| n.obs.d != cxs[n.cid as usize].d).max_by_key(|n| (n.hist.len(), std::cmp::Reverse(n.cid))) {
@@ -828,7 +888,7 @@ where
             "homology": show_sig(&cx.sig),
         }));
     }
-    json!({"type": T::NAME, "family": label, "complexes": cxs.len(), "states": st.states, "transitions": st.transitions,
+    json!({"type": T::NAME, "family": label, "complexes": cxs.len(), "states": st.states, "transitions": CT.transitions.load(Ordering::Relaxed) - transitions_before,
            "max_depth_reached": st.max_depth, "depth_bound": if max_depth == usize::MAX { json!("none (fixpoint)") } else { json!(max_depth) },
            "frontier_exhausted": st.exhausted, "states_per_depth": st.states_per_depth})
 }
@@ -890,6 +950,9 @@ where
     for<'x> &'x T: RingOps<T>,
 {
     for (label, lens, maxrank, ai, depth) in &plan.families {
+        if *ai >= alphabets.len() {
+            continue;
+        }
         if run.over_budget() {
             run.cap(&format!("wall budget reached before family {label} over {}", T::NAME));
             return;
@@ -964,12 +1027,15 @@ fn sequential_part(run: &Run) -> Vec<Value> {
                 ("L<=3,rank<=2,full", vec![1, 2, 3], 2, 0, fix),
                 ("L=4,rank<=2,three-letter", vec![4], 2, 1, fix),
                 ("L<=3,rank<=3,two-letter", vec![1, 2, 3], 3, 2, fix),
-                // TODO-DECIDE ("L=4,rank<=3,two-letter", vec![4], 3, 2, fix),
+                // Z[H] only (the other rings have no fourth alphabet): one differential up to 3x3 with H
+                ("L<=2,rank<=3,{0,1,H}", vec![1, 2], 3, 3, fix),
+                // not run: L = 4 with rank 3 over {0,1} is 6.2*10^5 .. 9.6*10^5 complexes per ring
+                // (measured), about 35 times the L=4,rank<=2 family — outside the 20 min budget.
             ],
             sample_depth: 3,
         }
     } else {
-        Plan { families: vec![("L<=3,rank<=2,full", vec![1, 2, 3], 2, 0, 3)], sample_depth: 2 }
+        Plan { families: vec![("L<=3,rank<=2,full", vec![1, 2, 3], 2, 0, 3), ("L=4,rank<=2,two-letter", vec![4], 2, 2, 3)], sample_depth: 2 }
     };
     let mut report = vec![];
     let zi = |v: &[i64]| -> Vec<Z> { v.iter().map(|&i| z(i)).collect() };
@@ -981,7 +1047,14 @@ fn sequential_part(run: &Run) -> Vec<Value> {
     // F3: {0,1,-1,2} = all of F3
     ring_part::<FF<3>>(run, &[Fp::<3>::all(), Fp::<3>::all(), vec![Fp(0), Fp(1)]], &plan, &mut report);
     let ph = |c: &[i64]| UPoly::<Q>::new(c.iter().map(|&i| Q::int(i)).collect());
-    ring_part::<ZH>(run, &[vec![ph(&[]), ph(&[1]), ph(&[0, 1]), ph(&[-1])], vec![ph(&[]), ph(&[1]), ph(&[0, 1])], vec![ph(&[]), ph(&[0, 1])]], &plan, &mut report);
+    // two-letter alphabet for Z[H]: {0,1} (with {0,H} nothing is reducible); H enters through the
+    // other three alphabets
+    ring_part::<ZH>(
+        run,
+        &[vec![ph(&[]), ph(&[1]), ph(&[0, 1]), ph(&[-1])], vec![ph(&[]), ph(&[1]), ph(&[0, 1])], vec![ph(&[]), ph(&[1])], vec![ph(&[]), ph(&[1]), ph(&[0, 1])]],
+        &plan,
+        &mut report,
+    );
     report
 }
 
@@ -1008,7 +1081,8 @@ fn main() {
         "states": ld(&CT.states),
         "transitions": ld(&CT.transitions),
         "traces_validated_against_impl": ld(&CT.transitions) + ld(&CT.replays) + ld(&CT.one_shots),
-        "evaluations": ld(&CT.evaluations) + ld(&CT.replays) + ld(&CT.one_shots),
+        "evaluations": ld(&CT.transitions) + ld(&CT.replays) + ld(&CT.one_shots),
+        "distinct_edges_to_new_states": ld(&CT.distinct_edges),
         "distinct_nontrivial": ld(&CT.nontrivial),
         "rule": "all chain complexes with L modules (L-1 differentials), ranks and alphabet as listed per family, kept iff consecutive products vanish in the reference ring; distinct_nontrivial = kept complexes with a non-zero differential, per scalar type (distinct by construction) plus the four repository complexes per type; states = distinct (complex, reducer content) pairs; transitions = executions of one reducer operation on the real implementation from a re-instantiated state; every discovered state is additionally reached by replaying its history from ChainReducer::from",
         "complexes": ld(&CT.complexes),
